@@ -227,6 +227,63 @@ var paths = []string{
 	"../a.html/..", "/.", ".././a.html", "//a.html", "e/../../../b.html", "/d/../a.html",
 }
 
+// formOf writes a path that leads from a file in directory dir to the file target: its absolute
+// form or the relative form ("../" for every directory to leave, then the rest).  Input generation
+// only - what a path resolves to is decided by the TLA+ reference, never here.
+func formOf(r *rand.Rand, dir, target []string) string {
+	if r.Intn(2) == 0 {
+		return "/" + join(target)
+	}
+	c := 0
+	for c < len(dir) && c < len(target)-1 && dir[c] == target[c] {
+		c++
+	}
+	return strings.Repeat("../", len(dir)-c) + join(target[c:])
+}
+
+// treeRefs: a reference graph grown from the entry file, every file visited gets 1-3 references
+// (mostly to files of the tree, written in absolute or relative form; sometimes any path form),
+// files expanded breadth first until 8 references are written.
+func treeRefs(r *rand.Rand, files [][]string, entry []string) []map[string]any {
+	var refs []map[string]any
+	seen := map[string]bool{join(entry): true}
+	queue := [][]string{entry}
+	for len(queue) > 0 && len(refs) < 8 {
+		f := queue[0]
+		queue = queue[1:]
+		dir := f[:len(f)-1]
+		n := 1 + r.Intn(3)
+		ks := make([]int, n)
+		for j := range ks {
+			ks[j] = 1 + r.Intn(3) // import, render, renderd
+			if r.Intn(3) != 0 {
+				ks[j] = 2 + r.Intn(2)
+			}
+		}
+		sort.Ints(ks)
+		for j := 0; j < n && len(refs) < 8; j++ {
+			var p string
+			if r.Intn(5) != 0 {
+				t := files[r.Intn(len(files))]
+				if r.Intn(4) != 0 { // mostly a file not yet in the tree (fewer cycles, deeper trees)
+					for k := 0; k < 6 && seen[join(t)]; k++ {
+						t = files[r.Intn(len(files))]
+					}
+				}
+				p = formOf(r, dir, t)
+				if !seen[join(t)] {
+					seen[join(t)] = true
+					queue = append(queue, t)
+				}
+			} else {
+				p = paths[r.Intn(21)] // a valid form, wherever it leads from here
+			}
+			refs = append(refs, map[string]any{"o": f, "k": kinds[ks[j]], "p": strings.Split(p, "/")})
+		}
+	}
+	return refs
+}
+
 func main() {
 	drv.Main(&drv.Sub{
 		Each: func(raw json.RawMessage, seed int64) []any {
@@ -241,7 +298,8 @@ func main() {
 			return []any{runOne(&c, "plain"), runOne(&c, "format")}
 		},
 		// seeded random graphs beyond the bounds of the model-checked space: up to 5 files and 8
-		// references, any path form; mostly in template statement order, sometimes not
+		// references, any path form; mostly in template statement order, sometimes not; every
+		// third one tree-shaped (treeRefs)
 		Extra: func(seed int64, n int) []json.RawMessage {
 			r := rand.New(rand.NewSource(seed))
 			var out []json.RawMessage
@@ -258,6 +316,11 @@ func main() {
 				entry := files[r.Intn(len(files))]
 				if r.Intn(25) == 0 {
 					entry = names[r.Intn(len(names))]
+				}
+				if i%3 == 2 { // every third graph is grown as a tree from the entry file
+					m, _ := json.Marshal(map[string]any{"id": 900000000 + i, "files": files, "entry": entry, "refs": treeRefs(r, files, entry)})
+					out = append(out, m)
+					continue
 				}
 				nrefs := r.Intn(9)
 				refs := make([]map[string]any, 0, nrefs)
